@@ -18,7 +18,7 @@ SCENARIOS = {
 WINDOW = 8.0
 
 
-def run_boot(wk, scenario, workers=2):
+def run_boot(wk, scenario, workers=2, ignsig=False):
     conf, args, appname, envkind = SCENARIOS[scenario]
     s = rp.Server(wk, workers=workers, threads=2 if wk == "gthread" else None, args=list(args), name="c03boot")
     try:
@@ -36,7 +36,8 @@ def run_boot(wk, scenario, workers=2):
         # (an exception escaping the master's main loop is printed on stderr, not in the error log)
         errp = os.path.join(s.dir, "stderr.txt")
         with open(errp, "w") as ferr:
-            p = subprocess.Popen(cmd, cwd=rp.REPO, env=env, stdout=subprocess.DEVNULL, stderr=ferr)
+            p = subprocess.Popen(cmd, cwd=rp.REPO, env=env, stdout=subprocess.DEVNULL, stderr=ferr,
+                                 preexec_fn=rp.ignore_master_signals if ignsig else None)
             try:
                 status = p.wait(WINDOW)
             except subprocess.TimeoutExpired:
@@ -59,7 +60,7 @@ def run_boot(wk, scenario, workers=2):
             p.wait(5)
         return {"scenario": scenario, "workers": workers, "window_ms": int(WINDOW * 1000),
                 "ev": [{"e": "exit", "status": status, "elapsed_ms": elapsed, "forks": forks}]}, \
-            {"wk": wk, "scenario": scenario, "status": status, "forks": forks,
+            {"wk": wk, "scenario": scenario + (",ignsig" if ignsig else ""), "status": status, "forks": forks,
              "log": ("HaltServer " if "HaltServer" in log else "") + log[-500:]}
     finally:
         s.cleanup()
@@ -74,9 +75,9 @@ DEPLOY = {
 }
 
 
-def run_death(wk, deploy, sig, workers=2):
+def run_death(wk, deploy, sig, workers=2, ignsig=False):
     """a worker that has booted is killed by a signal: the master reaps it and starts another one"""
-    s = rp.Server(wk, workers=workers, threads=2 if wk == "gthread" else None, args=list(DEPLOY[deploy]), name="c03death")
+    s = rp.Server(wk, workers=workers, threads=2 if wk == "gthread" else None, args=list(DEPLOY[deploy]), name="c03death", ignsig=ignsig)
     try:
         try:
             s.start()
@@ -94,7 +95,7 @@ def run_death(wk, deploy, sig, workers=2):
         zombies = [p for p in kids if rp.proc_state(p) == "Z"]
         return {"scenario": "death:" + deploy, "workers": workers, "window_ms": 3000,
                 "ev": [{"e": "death", "master_alive": mstate not in (None, "Z"), "live": len(live), "zombies": len(zombies)}]}, \
-            {"wk": wk, "scenario": "death:%s,sig=%d" % (deploy, sig), "status": None, "forks": None,
+            {"wk": wk, "scenario": "death:%s,sig=%d%s" % (deploy, sig, ",ignsig" if ignsig else ""), "status": None, "forks": None,
              "log": s.errlog()[-600:]}
     finally:
         s.cleanup()
@@ -113,8 +114,14 @@ def boot_side(ctx):
         if ctx.quick else \
         [(wk, "@" + d, sg) for wk in ("sync", "gthread", "gevent") for d in DEPLOY for sg in (_signal.SIGKILL, _signal.SIGHUP)]
 
+    # the same under a starter that left the master's signals set to "ignore" (inherited across exec: nohup, cron, a wrapper
+    # that ignores SIGCHLD): the master installs its handlers whatever it inherited
+    plan += [("sync", "app_object_missing", 1, True), ("sync", "@plain", _signal.SIGKILL, True)] if ctx.quick else \
+        [(wk, n, 1, True) for wk in ("sync", "gthread") for n in names] + [(wk, "@plain", _signal.SIGKILL, True) for wk in ("sync", "gthread", "gevent")]
+
     def one(a):
-        return run_death(a[0], a[1][1:], a[2]) if a[1].startswith("@") else run_boot(a[0], a[1], a[2])
+        ign = len(a) > 3 and a[3]
+        return run_death(a[0], a[1][1:], a[2], ignsig=ign) if a[1].startswith("@") else run_boot(a[0], a[1], a[2], ignsig=ign)
     results = _parallel(plan, lambda a, i: one(a), par=6)
     traces = [r[0] for r in results]
     metas = [r[1] for r in results]
